@@ -610,7 +610,11 @@ def run(ctx):
         for l in lines:
             for o in l.split(" ")[7:]:
                 ctx.dist[o.split(",")[0]] += 1
-        ctx.differential(name, [exe], "cq", lines, checked, classify)
+        # a hanging implementation (e.g. a corrupted chunk pool) must not stall the
+        # check: it is killed and reported like a crash
+        limit = "60" if name.startswith("cq(0-length") else "600"
+        C.log("  stream %s: %d cases" % (name, len(lines)))
+        ctx.differential(name, ["timeout", "-s", "KILL", limit, exe], "cq", lines, checked, classify)
     ctx.faults_fired += FIRED[0]
     ctx.exhaustive = False
     ctx.notes.append("exhaustive: all op sequences of length 3 over a 15-op alphabet; in %d spill sequences of "
